@@ -22,7 +22,7 @@ def random_hdl_module(rnd, tlib, kinds, name='top', max_inst=4):
     for i in range(nin):
         if rnd.random() < 0.4:
             w = rnd.randint(1, 3)
-            rng = (w - 1, 0) if rnd.random() < 0.6 else (0, w - 1) if rnd.random() < 0.7 else (w + 1, 2)
+            rng = rnd.choice([(w - 1, 0), (w - 1, 0), (0, w - 1), (w + 1, 2), (9 + w, 10), (10, 9 + w), (8 + w, 9), (9, 8 + w), (2, 1 + w)])     # bounds with different digit counts too
             if rng[0] == rng[1]:
                 rng = (rng[0], rng[0])
             ports.append(('input', 'in%d' % i, rng))
@@ -42,7 +42,7 @@ def random_hdl_module(rnd, tlib, kinds, name='top', max_inst=4):
             if r < 0.08:
                 continue                       # left unconnected
             pm[p] = rnd.choice(["1'b0", "1'b1"]) if r < 0.18 else rnd.choice(sigs)
-        keep = [p for p in outs if rnd.random() >= 0.25] or ([rnd.choice(outs)] if outs else [])
+        keep = [p for p in outs if rnd.random() >= 0.25] or ([rnd.choice(outs)] if outs and rnd.random() < 0.7 else [])    # sometimes no output at all is used
         for p in keep:
             w = ('n%d.%s' % (k, p.lower())) if esc and rnd.random() < 0.5 else 'n%d_%s' % (k, p.lower())
             pm[p] = w
@@ -65,6 +65,35 @@ def random_hdl_module(rnd, tlib, kinds, name='top', max_inst=4):
             src = rnd.choice(["1'b0", "1'b1"]) if r < 0.15 else rnd.choice(driven or sigs) if r < 0.85 else rnd.choice(sigs)
             assigns.append((b, src))
     return dict(name=name, ports=ports + outp, insts=insts, wires=wires, assigns=assigns)
+
+
+MULTI = {'NANGATE': ['HA_X1', 'FA_X1', 'DFF_X1'], 'NANGATE_ZN': ['HA_X1', 'FA_X1'], 'SAED32': ['FADDX1_RVT', 'HADDX1_RVT', 'DFFX1_RVT', 'DEC24X1_RVT'],
+         'SAED90': ['HADDX1', 'FADDX1', 'DFFX1'], 'GSC180': ['ADDFX1', 'ADDHX1', 'DFFX1']}
+SINK = {'NANGATE': 'INV_X1', 'NANGATE_ZN': 'INV_X1', 'SAED32': 'INVX1_RVT', 'SAED90': 'INVX0', 'GSC180': 'INVX1'}
+
+
+def pruning_module(rnd, lname, tlib):
+    """A multi-output cell one of whose outputs feeds only an instance with no used output (dead logic that resolving
+    prunes away) while another output is used; the text may instantiate the dead reader first."""
+    kind = rnd.choice(MULTI[lname])
+    pins = tlib.cells[kind][1]
+    ins = sorted([p for p, (i, o) in pins.items() if not o], key=lambda p: pins[p][0])
+    outs = sorted([p for p, (i, o) in pins.items() if o], key=lambda p: pins[p][0])
+    ports = [('input', 'a%d' % i, None) for i in range(len(ins))]
+    pm = {p: 'a%d' % i for i, p in enumerate(ins)}
+    wires = []
+    for p in outs:
+        pm[p] = 'w_' + p.lower()
+        wires.append(pm[p])
+    dead = rnd.randrange(len(outs))
+    sink = SINK[lname]
+    spins = tlib.cells[sink][1]
+    sin = [p for p, (i, o) in spins.items() if not o][0]
+    insts = [(kind, 'u_m', pm), (sink, 'u_dead', {sin: pm[outs[dead]]})]
+    used = [o for k, o in enumerate(outs) if k != dead]
+    outp = [('output', 'z%d' % k, None) for k in range(len(used))]
+    assigns = [('z%d' % k, pm[o]) for k, o in enumerate(used)]
+    return dict(name='top', ports=ports + outp, insts=insts, wires=wires, assigns=assigns)
 
 
 def build(mod, tlib, branchforks=False, order=None):
